@@ -636,6 +636,13 @@ class RequestHandler(BaseProtocol, Generic[_Request]):
             finally:
                 self._current_request = None
         except HTTPException as exc:
+            # some data already got sent, a second response would be
+            # interleaved with the first one
+            if request.writer.output_size > 0:
+                raise ConnectionError(
+                    "Response is sent already, cannot send another response "
+                    "with the error message"
+                )
             # Uncaught parser error
             if request._pre_handler_error is exc:
                 self.logger.warning(
